@@ -513,34 +513,39 @@ func init() {
 					// remove the stored session, so it is answered with an error, or the session is gone — never a success redirect
 					// while the pre-sign-out cookie still authenticates
 					if redis && path == "" && dom == nil {
-						cfgT := cfg
-						cfgT.Htpasswd = nil
-						cfgT.RedisReadTimeout = 600 * time.Millisecond
-						if et, err := newEnv(c, cfgT); err == nil {
-							for _, cmd := range []string{"DEL", "GET"} {
-								b := newBrowser()
-								if lr := et.login(b, u, "/app/home"); !lr.OK {
-									c.violation("HARNESS", "login failed (stall env)", nil)
-									continue
+						for _, readTimeout := range []time.Duration{600 * time.Millisecond, 0} { // 0: the client's default (3 s)
+							cfgT := cfg
+							cfgT.Htpasswd = nil
+							cfgT.RedisReadTimeout = readTimeout
+							if et, err := newEnv(c, cfgT); err == nil {
+								for _, cmd := range []string{"DEL", "GET"} {
+									if readTimeout == 0 && cmd != "DEL" {
+										continue
+									}
+									b := newBrowser()
+									if lr := et.login(b, u, "/app/home"); !lr.OK {
+										c.violation("HARNESS", "login failed (stall env)", nil)
+										continue
+									}
+									before := b.cookieHeader()
+									et.redisFault = map[string]string{cmd: "hang"}
+									v := et.do(reqSpec{Target: et.opts.ProxyPrefix + "/sign_out", Cookie: before})
+									et.redisFault = nil
+									r2 := et.do(reqSpec{Target: "/app/replay", Cookie: before})
+									c.casen("c11|stall|"+cmd, fmt.Sprint(v.Status))
+									c.count("signout:redis-stall")
+									if v.Status == 302 && len(r2.Hits) > 0 {
+										c.violation("C11", "sign-out answered with the success redirect although Redis stalled on "+cmd+" and the stored session was not removed: the pre-sign-out cookie still authenticates",
+											map[string]interface{}{"stalled_command": cmd, "status": v.Status, "location": v.Location, "read_timeout": cfgT.RedisReadTimeout.String()})
+										c.violation("C13", "a successful sign-out is reported while the stored session is still loadable (Redis timed out on "+cmd+")",
+											map[string]interface{}{"stalled_command": cmd, "status": v.Status})
+									}
+									et.mr.FlushAll()
 								}
-								before := b.cookieHeader()
-								et.redisFault = map[string]string{cmd: "hang"}
-								v := et.do(reqSpec{Target: et.opts.ProxyPrefix + "/sign_out", Cookie: before})
-								et.redisFault = nil
-								r2 := et.do(reqSpec{Target: "/app/replay", Cookie: before})
-								c.casen("c11|stall|"+cmd, fmt.Sprint(v.Status))
-								c.count("signout:redis-stall")
-								if v.Status == 302 && len(r2.Hits) > 0 {
-									c.violation("C11", "sign-out answered with the success redirect although Redis stalled on "+cmd+" and the stored session was not removed: the pre-sign-out cookie still authenticates",
-										map[string]interface{}{"stalled_command": cmd, "status": v.Status, "location": v.Location, "read_timeout": cfgT.RedisReadTimeout.String()})
-									c.violation("C13", "a successful sign-out is reported while the stored session is still loadable (Redis timed out on "+cmd+")",
-										map[string]interface{}{"stalled_command": cmd, "status": v.Status})
-								}
-								et.mr.FlushAll()
+								et.close()
+							} else {
+								c.violation("HARNESS", "env: "+err.Error(), nil)
 							}
-							et.close()
-						} else {
-							c.violation("HARNESS", "env: "+err.Error(), nil)
 						}
 					}
 					// sign-out request that itself triggers a refresh which changes the cookie layout (grow / shrink / same)
